@@ -184,10 +184,36 @@ def _attributing(fn):
     return wrapped
 
 
+def _pad_product(psi):
+    """Replace the tensors of a complete-manifold state by a computational-basis product state zero-padded into the same bond profile
+    (the basis state with the largest amplitude of the random state, hence in the same sector). The bonds are then far larger than the
+    Schmidt rank of the state; the manifold is unchanged."""
+    v = dense_state(psi)
+    L = len(psi.A); d = len(psi.qd)
+    idx = int(np.argmax(np.abs(v)))
+    digits = [(idx // d ** (L - 1 - i)) % d for i in range(L)]
+    q = int(psi.qD[0][0]); pos = 0
+    new = []
+    for i, sgm in enumerate(digits):
+        qn = q + int(psi.qd[sgm])
+        cand = [k for k, c in enumerate(np.asarray(psi.qD[i + 1]).tolist()) if c == qn]
+        if not cand:
+            return False
+        a = np.zeros(psi.A[i].shape, dtype=complex)
+        a[sgm, pos, cand[0]] = 1.0
+        new.append(a)
+        q = qn; pos = cand[0]
+    psi.A = new
+    return True
+
+
 @_attributing
 def check_converges(case, rec):
     H = build_ham(case['ham'])
     psi = build_mps(case['psi'])
+    if case.get('padded_product') and len(psi.A) >= 2 and np.linalg.norm(dense_state(psi)) > 0:
+        if _pad_product(psi):
+            rec.label('zero_padded_product_start')
     L = len(psi.A); d = len(psi.qd)
     if L < 2:
         rec.skip('L < 2')
@@ -252,6 +278,12 @@ def check_converges(case, rec):
     if ov < 1e-3:
         rec.skip('start state (nearly) orthogonal to the ground space')
         return
+    if 'zero_padded_product_start' in rec.labels:
+        # a structured (basis) start may lose its ground-state component exactly in the first local steps when H has a symmetry the
+        # charges do not encode (observed: total spin of the spin-orbital model, the run ends in the lowest triplet state): reaching an
+        # eigenstate is judged above, reaching the GROUND state is a theorem only for generic starts
+        rec.skip('structured start: ground energy not judged (eigenstate clause is)')
+        return
     require(abs(en[-1] - E_gs) <= 1e-7 * scale, 'exact ground state energy not reached on a complete manifold with enough Lanczos iterations',
             reached=float(en[-1]), ground=E_gs, energies=np.asarray(en).tolist(), sector_dim=sdim)
     rec.metric('gs_err', abs(en[-1] - E_gs) / scale)
@@ -263,6 +295,7 @@ def check_converges(case, rec):
 def gen_converges(draw, tier):
     c = draw(complete_case(Lmax=5, dense_cap=64 if tier == 'quick' else 256))
     c['algorithm'] = draw(st.sampled_from(['single', 'two']))
+    c['padded_product'] = draw(st.sampled_from([False, False, True]))
     return c
 
 
